@@ -837,6 +837,10 @@ func (d decomposed192) powexp10(o int16, trunc int8) (decomposed192, int8) {
 		}
 
 		if p10&1 != 0 {
+			if int64(d.exp)+int64(r.exp) > math.MaxInt16-58*2 {
+				return dinf, trunc
+			}
+
 			r, rtrunc = d.mul(r, rtrunc)
 			p10--
 		}
@@ -845,7 +849,7 @@ func (d decomposed192) powexp10(o int16, trunc int8) (decomposed192, int8) {
 		p10 /= 2
 	}
 
-	if int64(d.exp)+int64(r.exp) > math.MaxInt16 {
+	if int64(d.exp)+int64(r.exp) > math.MaxInt16-58*2 {
 		return dinf, trunc
 	}
 
